@@ -485,7 +485,7 @@ func normBraces(s string) string {
 }
 
 type serialSides struct {
-	pk                                 *packages.Package
+	pk                                           *packages.Package
 	encode, encFunction, encBinding, encBindings *ast.FuncDecl
 	decode, decFunction, decBinding, decBindings *ast.FuncDecl
 }
@@ -1024,7 +1024,9 @@ func collectDynTypes(p *Prog, v ssa.Value, out map[string]bool, seen map[ssa.Val
 		return
 	}
 	seen[v] = true
-	q := func(t types.Type) string { return types.TypeString(t, func(p *types.Package) string { return p.Name() }) }
+	q := func(t types.Type) string {
+		return types.TypeString(t, func(p *types.Package) string { return p.Name() })
+	}
 	switch x := v.(type) {
 	case *ssa.MakeInterface:
 		out[q(x.X.Type())] = true
@@ -1222,23 +1224,108 @@ func ruleZ4(c *Ctx) {
 		}
 	}
 	key = "DecodeProgram: trailing data check"
-	if trailIf == nil {
-		c.viol(key, pos, "no check that all input was consumed")
-	} else {
-		// the success return (non-nil program) must be dominated by trailIf
-		okRet := false
-		eachInstr(fn, func(in ssa.Instruction) {
-			if r, ok := in.(*ssa.Return); ok && len(r.Results) == 2 && !isNilConst(r.Results[0]) {
-				if instrDominates(trailIf, r) {
-					okRet = true
+	// every []byte field of the decoder (the input still to be read) must be tested for emptiness on
+	// the way to the success return, whatever the shape of the test: len(a)+len(b) > 0, len(a) > 0 ||
+	// len(b) > 0, len(a) == 0 && len(b) == 0, ...
+	_ = trailIf
+	var byteFields []string
+	if dn := c.P.Named(compilePkg, "decoder"); dn != nil {
+		if st, ok := dn.Underlying().(*types.Struct); ok {
+			for i := 0; i < st.NumFields(); i++ {
+				if sl, ok := st.Field(i).Type().Underlying().(*types.Slice); ok {
+					if b, ok := sl.Elem().Underlying().(*types.Basic); ok && b.Kind() == types.Uint8 {
+						byteFields = append(byteFields, st.Field(i).Name())
+					}
 				}
 			}
-		})
-		if okRet {
-			c.ok(key, c.P.Pos(trailIf.Pos()), "dominates the success return")
-		} else {
-			c.viol(key, c.P.Pos(trailIf.Pos()), "the success return is not dominated by the unconsumed-data check")
 		}
+	}
+	lenFieldsOf := func(v ssa.Value) map[string]bool {
+		out := map[string]bool{}
+		for x := range backSlice(v) {
+			call, ok := x.(*ssa.Call)
+			if !ok {
+				continue
+			}
+			if bi, ok := call.Call.Value.(*ssa.Builtin); !ok || bi.Name() != "len" {
+				continue
+			}
+			if ld, ok := call.Call.Args[0].(*ssa.UnOp); ok && ld.Op == token.MUL {
+				if fa, ok := ld.X.(*ssa.FieldAddr); ok {
+					if _, n := namedOf(fa.X.Type()); n == "decoder" {
+						out[deref(fa.X.Type()).Underlying().(*types.Struct).Field(fa.Field).Name()] = true
+					}
+				}
+			}
+		}
+		return out
+	}
+	if len(byteFields) == 0 {
+		c.anchorFail("DecodeProgram: the decoder has no []byte field")
+		return
+	}
+	var succ []*ssa.Return
+	eachInstr(fn, func(in ssa.Instruction) {
+		r, ok := in.(*ssa.Return)
+		if !ok || len(r.Results) != 2 {
+			return
+		}
+		// with a deferred recover the results are named: `return x, nil` stores x into the result
+		// variable and the Return loads it back
+		v := r.Results[0]
+		if ld, ok := v.(*ssa.UnOp); ok && ld.Op == token.MUL {
+			if al, ok := ld.X.(*ssa.Alloc); ok {
+				v = nil
+				for _, bi := range r.Block().Instrs {
+					if st, ok := bi.(*ssa.Store); ok && st.Addr == ssa.Value(al) {
+						v = st.Val
+					}
+				}
+			}
+		}
+		if v != nil && !isNilConst(v) {
+			succ = append(succ, r)
+		}
+	})
+	missing := ""
+	var at token.Pos
+	for _, r := range succ {
+		tested := map[string]bool{}
+		for _, pc := range pathConds(r.Block()) {
+			cv, neg := stripNot(pc.If.Cond)
+			b, ok := cv.(*ssa.BinOp)
+			if !ok {
+				continue
+			}
+			k, isK := constInt(b.Y)
+			if !isK || k != 0 {
+				continue
+			}
+			emptyOnTrue := b.Op == token.EQL || b.Op == token.LEQ
+			if !emptyOnTrue && b.Op != token.GTR && b.Op != token.NEQ {
+				continue
+			}
+			if (pc.Branch != neg) != emptyOnTrue {
+				continue
+			}
+			for f := range lenFieldsOf(b.X) {
+				tested[f] = true
+				at = pc.If.Pos()
+			}
+		}
+		for _, f := range byteFields {
+			if !tested[f] {
+				missing = f
+			}
+		}
+	}
+	switch {
+	case len(succ) == 0:
+		c.viol(key, pos, "no success return found")
+	case missing != "":
+		c.viol(key, pos, "no check that all input was consumed: the success return is not dominated by a test that decoder."+missing+" is empty")
+	default:
+		c.ok(key, c.P.Pos(at), "every []byte field of the decoder is tested empty on the way to the success return")
 	}
 }
 
